@@ -42,6 +42,8 @@ def main():
     tier = a.tier if a.tier in ('quick', 'thorough') else 'quick'
     seed = int(os.environ.get('VERIF_SEED', '0') or 0)
     prop = a.prop
+    findings = R.active_findings(prop)
+    os.environ['PYVC_FINDINGS'] = json.dumps([e['id'] for e in findings])
     try:
         mod = importlib.import_module(f'props.{prop}')
     except Exception:
@@ -56,8 +58,6 @@ def main():
         return 1 if res.get('confirmed') else 0
 
     rep = R.Report(prop, tier, seed, level=getattr(mod, 'LEVEL', 'proof'))
-    findings = R.active_findings(prop)
-    os.environ['PYVC_FINDINGS'] = json.dumps([e['id'] for e in findings])
     try:
         tasks = mod.tasks(tier)
     except Exception:
